@@ -430,6 +430,7 @@ func (r *Run) compose(g *kit.Gor, call *UpCall, req *http.Request, res, planIdx 
 			r.stallSID = map[int]bool{}
 		}
 		r.stallSID[sid] = true
+		r.Faults["net.stalling-error-reply"]++
 	}
 	varKey := r.varKeyOf(res, req.Header)
 	etag := ""
